@@ -10,7 +10,13 @@
  *    seq:o,ENOMEM,i,o            the points reached inside the *armed region* of a
  *                                unit scenario consume these answers in order
  *                                (o = pass through, i = EINTR once, an errno name = fail)
+ *    at:M.write#1=EAGAIN!        forced: skips the applicability test (used for the write inside
+ *                                libuv's signal handler: a full signal pipe)
+ *    at:M.accept4#0=LIMIT        the process is at its descriptor limit from that call on: the call
+ *                                fails with EMFILE, and so does every later descriptor-creating call
+ *                                for as long as at least as many descriptors are open as at that moment
  * In record mode (plan "-") nothing fails and every point is logged.
+ * A run that passes more than FI_SPIN fault points is cut off (status SPIN).
  */
 #ifndef C16_FAULT_H
 #define C16_FAULT_H
@@ -56,7 +62,8 @@ static const char* name_of_err(int e) {
   return "E?";
 }
 
-struct fault { int cls, id, idx, err, k; };   /* k > 0: EINTR storm of k */
+struct fault { int cls, id, idx, err, k, force, limit; };   /* k > 0: EINTR storm of k */
+#define FI_SPIN 60000
 
 static pthread_t fi_main;
 static pthread_mutex_t fi_mu = PTHREAD_MUTEX_INITIALIZER;
@@ -119,7 +126,18 @@ static int fi_name_id(const char* name) {
 }
 
 static int fi_is_wakeup(int fd);    /* eventfd / signal pipes of the loop: defined by the harness */
+static int fi_is_sigpipe(int fd);   /* write end of the loop's signal pipe */
+static int fi_count_fds(void);
+static void fi_flush_and_exit(int code);
+static long fi_hits; static int fi_fdlimit;
 /* n = non-blocking, s = socket, w = internal wake-up channel */
+static int fi_creates_fd(const char* name) {
+  static const char* const c[] = {"accept4", "socket", "socketpair", "pipe2", "eventfd", "epoll_create1", "open",
+                                  "inotify_init1", "opendir", "iou_setup", NULL};
+  int i;
+  for (i = 0; c[i]; i++) if (!strcmp(c[i], name)) return 1 + (!strcmp(name, "socketpair") || !strcmp(name, "pipe2"));
+  return 0;
+}
 static void fd_attr(int fd, char* a) {
   struct stat st; int fl, n = 0;
   if (fd >= 0) {
@@ -127,6 +145,7 @@ static void fd_attr(int fd, char* a) {
     if (fl != -1 && (fl & O_NONBLOCK)) a[n++] = 'n';
     if (fstat(fd, &st) == 0 && S_ISSOCK(st.st_mode)) a[n++] = 's';
     if (fi_is_wakeup(fd)) a[n++] = 'w';
+    if (fi_is_sigpipe(fd)) a[n++] = 'g';
   }
   a[n] = 0;
 }
@@ -146,7 +165,8 @@ static int fi_applicable(const char* name, int e, const char* attr, int fd) {
 /* attr: string of flags for the record ("n" non-blocking fd, "s" socket) */
 static int fi_hit(const char* name, int fd) {
   int cls, id, idx, e = 0, i;
-  char attr[6] = "";
+  char attr[8] = "";
+  int force = 0, creates;
   sigset_t old;
   if (!fi_on) return 0;
   cls = pthread_equal(pthread_self(), fi_main) ? 0 : 1;
@@ -157,11 +177,23 @@ static int fi_hit(const char* name, int fd) {
     struct fault* f = &fi_faults[i];
     if (f->cls != cls || f->id != id) continue;
     if (f->k > 0) { if (idx >= f->idx && idx < f->idx + f->k) e = EINTR; }
-    else if (idx == f->idx) e = f->err;
+    else if (idx == f->idx) {
+      e = f->err; force = f->force;
+      if (f->limit) { fi_fdlimit = fi_count_fds(); force = 1; }
+    }
   }
+  creates = fi_creates_fd(name);
+  if (!e && fi_fdlimit > 0 && creates && fi_count_fds() + creates - 1 >= fi_fdlimit) { e = EMFILE; force = 1; }
   if (e || fi_record) {
     fd_attr(fd, attr);
-    if (e && !fi_applicable(name, e, attr, fd)) e = 0;
+    if (e && !force && !fi_applicable(name, e, attr, fd)) e = 0;
+  }
+  if (++fi_hits > FI_SPIN) {
+    /* a loop that keeps making system calls without getting anywhere */
+    fi_on = 0;
+    fi_unlock(&old);
+    ev("SPIN:%s:api=%s", name, fi_api);
+    fi_flush_and_exit(79);
   }
   if (fi_useseq && fi_armed && cls == 0 && (!fi_only || !strcmp(fi_only, name))) {
     e = fi_seqpos < fi_nseq ? fi_seq[fi_seqpos] : 0;
@@ -207,8 +239,10 @@ static int fi_parse(const char* plan) {
       for (j = 0; j < fi_nnames; j++) if (!strcmp(fi_names[j], name)) known = j;
       f->id = known >= 0 ? known : fi_name_id(strdup(name));
     }
-    f->cls = cls == 'W'; f->idx = idx; f->k = 0; f->err = 0;
-    if (kind[0] == 'I') f->k = atoi(kind + 1); else f->err = err_of_name(kind);
+    f->cls = cls == 'W'; f->idx = idx; f->k = 0; f->err = 0; f->force = 0; f->limit = 0;
+    if (kind[0] && kind[strlen(kind) - 1] == '!') { f->force = 1; kind[strlen(kind) - 1] = 0; }
+    if (!strcmp(kind, "LIMIT")) { f->limit = 1; f->err = EMFILE; }
+    else if (kind[0] == 'I') f->k = atoi(kind + 1); else f->err = err_of_name(kind);
     if (f->k == 0 && f->err == 0) return -1;
   }
   free(copy);
@@ -380,7 +414,6 @@ long __wrap_syscall(long nr, ...) {
 }
 
 /* ---- abort ------------------------------------------------------------- */
-static void fi_flush_and_exit(int code);
 void __wrap_abort(void) {
   fi_on = 0;
   /* abort() does not return: the return address may already belong to the next function */
